@@ -392,6 +392,21 @@ class CallsMixin(ExecBase):
             flag = fresh("raises_" + short.replace(".", "_"), BoolS)
             self.may_raise(st, flag, Exc(None, origin=name), node)
         st.log.append(CallRec(name, avals, kvals, res, node))
+        gcs = self.opts.get("ghost_calls", {})
+        gc = gcs.get(name) or gcs.get(short) or gcs.get(short.split(".")[-1])
+        if gc is not None:
+            gname, keys = gc
+            rec = EMPTY_DICT
+            for idx_, a_ in enumerate(avals):
+                if str(idx_) in keys:
+                    rec = z3.Store(rec, z3.StringVal(str(idx_)), a_.any())
+            for k_, v_ in kvals.items():
+                if k_ in keys:
+                    rec = z3.Store(rec, z3.StringVal(k_), v_.any())
+            cur = st.ghost.get(gname, Val("l", EMPTY_LIST))
+            new_ = Val("l", z3.Concat(cur.e, z3.Unit(ctor("d")(rec))))
+            g_ = self.guard_cond()
+            st.ghost[gname] = ite_val(g_, new_, cur) if g_ is not None else new_
         dep = self.opts.get("dependency_post", {}).get(name)
         if dep is not None:
             from .contracts import Clause
@@ -422,6 +437,15 @@ class CallsMixin(ExecBase):
             self.assume(st, goal)
         pre = st.fork()
         pre.vars = dict(bound)
+        if c.opts.get("functional"):
+            # pure deterministic function: its result is an (uninterpreted) function of its arguments
+            formals = [a.arg for a in source.find_function(qual)[2].args.args]
+            vals = [self.as_val(bound[a], st, node).any() for a in formals if a not in ("self", "cls")]
+            f = z3.Function("fn." + c.opts["functional"], *([Any] * len(vals)), Any)
+            res = from_any(f(*vals))
+            for cl in c.ensures_:
+                self.assume(st, self.eval_clause(cl, bound, st, pre, {"result": res}))
+            return res
         # havoc
         for path in c.opts.get("modifies", ()):
             self.havoc_path(path, bound, st, node)
